@@ -171,6 +171,7 @@ func New(t *Tape, policy int, budget int) *Sim {
 		s.pctLow = -1
 	}
 	s.hash = 14695981039346656037
+	resetWaits()
 	cur = s
 	return s
 }
